@@ -90,3 +90,20 @@ Proof.
     + intros k V. rewrite (r_spec _ _ _ RJ k V), (r_spec _ _ _ R k V). reflexivity.
     + intros HV. rewrite (r_va _ _ _ RJ HV), (r_va _ _ _ R HV). reflexivity.
 Qed.
+
+(* non-trivial instances of the hypotheses used above: def f(a, b=11, *args, k, m=21, **kw) *)
+Example example_state : exists st0 st,
+  functor_ctor example_sig {| cpos := [VInt 7]; ckw := [(4, VInt 1)] |} false false = Ok st0 /\
+  late_all {| q_noop_rebind := false |} example_sig st0 [(2, VInt 3); (20, VInt 1); (10, VList [1%Z; 2%Z])] = Ok st.
+Proof. eexists; eexists; split; vm_compute; reflexivity. Qed.
+
+Example example_avoids_noop : forall st,
+  functor_ctor example_sig {| cpos := [VInt 7]; ckw := [(4, VInt 1)] |} false false = Ok st ->
+  lates_avoid_noop example_sig st [(2, VInt 3); (20, VInt 1)].
+Proof.
+  intros st H. vm_compute in H. inversion H; subst; clear H. simpl. split.
+  - intros _ old G. vm_compute in G. inversion G; subst. reflexivity.
+  - intros st' L. vm_compute in L. inversion L; subst; clear L. split.
+    + intros _ old G. vm_compute in G. discriminate.
+    + intros; exact I.
+Qed.
